@@ -81,6 +81,14 @@ def conversion_tu(seed):
             for b in lays:
                 lines.append(f"template void conv<{a},{b}>(const covfie::field<{a}> &);\n")
                 n_pairs += 1
+        # the converting constructors also accept a source whose stored scalar differs (values are converted element-wise)
+        t2 = "double" if t == "float" else "float"
+        arr2 = f"{B}array<{V}<{t2},{m}>>"
+        lays2 = [f"{B}strided<{iv},{arr2}>", f"{B}morton<{iv},{arr2},false>"] + ([f"{B}hilbert<{iv},{arr2}>"] if n == 2 else [])
+        for a in lays[:2]:
+            for b in lays2:
+                lines.append(f"template void conv<{a},{b}>(const covfie::field<{a}> &);\n")
+                n_pairs += 1
         # whole stacks
         for ia, ib in (("linear", "nearest_neighbour"), ("nearest_neighbour", "linear")):
             a = f"{B}affine<{B}{ia}<{lays[0]},{V}<float,{n}>>>"
